@@ -54,7 +54,8 @@ func (f *OrefaFile) Chdir() error {
 		return &fs.PathError{Op: op, Path: f.name, Err: err}
 	}
 
-	_ = f.vfs.SetCurDir(f.name)
+	// the name given to OpenFile may be relative or not clean.
+	_ = f.vfs.SetCurDir(f.absPath)
 
 	return nil
 }
